@@ -199,8 +199,9 @@ async fn cell<K: Kind>(addr: SocketAddr, set: Arc<CertSet>, topic: String, comp:
             return Err(fail("setup", "warmup", "subscriber never saw a warm-up item within 20 s".into()));
         }
     }
-    // measured publisher
-    let pb = with_comp!(client.publisher(&topic).with_encoder(K::codec()));
+    // measured publisher (on a connection of its own when that connection is to be dropped)
+    let pubclient: Option<Client> = if mode == "drop-after-finish" { Some(net::default_client(addr, &set).await.map_err(|e| fail("setup", "connect", format!("publisher client connect failed: {e}")))?) } else { None };
+    let pb = with_comp!(pubclient.as_ref().unwrap_or(&client).publisher(&topic).with_encoder(K::codec()));
     let pb = match batching {
         Some((sz, ms)) => pb.with_batching(BatchConfig::new(sz, Duration::from_millis(ms))),
         None => pb,
@@ -227,6 +228,30 @@ async fn cell<K: Kind>(addr: SocketAddr, set: Arc<CertSet>, topic: String, comp:
             }));
             // the subscriber stays idle long enough for every window on the way to fill up
             tokio::time::sleep(Duration::from_millis(1500)).await;
+        }
+        // the publisher's whole connection goes away the moment finish() has returned
+        "drop-after-finish" => {
+            pubtask = Some(tokio::spawn(async move {
+                let class = class_p;
+                let mut st = futures::stream::iter(to_send.into_iter().map(Ok::<_, selium::std::errors::SeliumError>));
+                publisher.send_all(&mut st).await.map_err(|e| fail("send-error", &class, format!("publisher.send_all failed: {e}")))?;
+                publisher.finish().await.map_err(|e| fail("finish-error", &class, format!("publisher.finish failed: {e}")))?;
+                drop(pubclient);
+                Ok::<(), Fail>(())
+            }));
+        }
+        // an item over the frame limit is refused; the publisher carries on with valid items
+        "refused-item" => {
+            for (i, it) in to_send.iter().enumerate() {
+                if i == 1 {
+                    let big = K::item(9999, 1_100_000);
+                    if publisher.send(big.clone()).await.is_ok() {
+                        items.insert(1, big);
+                    }
+                }
+                publisher.send(it.clone()).await.map_err(|e| fail("send-error", &class, format!("publisher.send of a valid item failed (after an item over the frame limit had been refused): {e}")))?;
+            }
+            publisher.finish().await.map_err(|e| fail("finish-error", &class, format!("publisher.finish failed: {e}")))?;
         }
         // a duplicate taken while part of a batch is pending, used and finished before the original
         "duplicate" => {
@@ -273,6 +298,7 @@ async fn cell<K: Kind>(addr: SocketAddr, set: Arc<CertSet>, topic: String, comp:
             }
             Ok(Ok((_, Some(Err(e))))) => return Err(fail("subscriber-error", &class, format!("subscriber yielded an error: {e}"))),
             Ok(Ok((_, None))) => break,
+            Ok(Err(e)) if e.is_panic() => return Err(fail("subscriber-panicked", &class, format!("the task polling the subscriber panicked after {} items: {e}", got.len()))),
             Ok(Err(e)) => return Err(fail("setup", "task", e.to_string())),
             Err(_) => {
                 h.abort();
@@ -308,11 +334,13 @@ fn cells(tier: &str) -> Vec<Value> {
     let mut v = Vec::new();
     let mut id = 0usize;
     let mut push = |codec: &str, comp: &str, batching: Option<(u32, u64)>, n: usize, size: usize, v: &mut Vec<Value>| {
-        v.push(json!({"cell": id, "codec": codec, "compression": comp, "batch_size": batching.map(|b| b.0), "batch_interval_ms": batching.map(|b| b.1), "messages": n, "payload_bytes": size & 0xff_ffff, "mode": (["send", "bulk", "duplicate"][size >> 24])}));
+        v.push(json!({"cell": id, "codec": codec, "compression": comp, "batch_size": batching.map(|b| b.0), "batch_interval_ms": batching.map(|b| b.1), "messages": n, "payload_bytes": size & 0xff_ffff, "mode": (["send", "bulk", "duplicate", "drop-after-finish", "refused-item"][size >> 24])}));
         id += 1;
     };
     const BULK: usize = 1 << 24;
     const DUP: usize = 2 << 24;
+    const DROP: usize = 3 << 24;
+    const REFUSED: usize = 4 << 24;
     let hour = 3_600_000u64;
     let batchings: Vec<Option<(u32, u64)>> = vec![None, Some((1, hour)), Some((2, hour)), Some((3, hour)), Some((5, hour)), Some((1, 0)), Some((2, 0)), Some((3, 0)), Some((5, 0))];
     // bulk: 6 MB pushed with send_all while the subscriber is idle for 1.5 s (transport back-pressure)
@@ -322,6 +350,19 @@ fn cells(tier: &str) -> Vec<Value> {
         for comp in comps_b {
             push(codecs[k % 3], comp, *b, 3000, BULK | 2048, &mut v);
         }
+    }
+    // the publisher's connection is dropped as soon as finish() has returned (4 MB in flight)
+    for b in [None, Some((64u32, hour))] {
+        push("bytes", "none", b, 500, DROP | 8192, &mut v);
+    }
+    // an item over the frame limit is refused in the middle of valid ones
+    // (unbatched: with batching an item is only framed together with others, see the next family)
+    for (k, comp) in ["none", "lz4", "gzip"].into_iter().enumerate() {
+        push(codecs[k % 3], comp, None, 4, REFUSED | 24, &mut v);
+    }
+    // valid items whose batch as a whole does not fit one frame (5 x 300 KB, 4 x 300 KB twice)
+    for (k, (b, n)) in [(Some((5u32, hour)), 6usize), (Some((4, hour)), 9), (Some((5, 0)), 6)].into_iter().enumerate() {
+        push(codecs[k % 3], if k == 1 { "lz4" } else { "none" }, b, n, 300_000, &mut v);
     }
     // duplicate() taken while 1..size-1 items of a batch are pending
     for b in [Some((5u32, hour)), Some((3, hour)), Some((2, 0)), None] {
@@ -412,7 +453,7 @@ pub async fn run(tier: &str, replaying: bool) -> ! {
     finish(
         rep,
         outs,
-        "every cell of codec {String, Bytes, Bincode struct} x compression {none, gzip, zlib, zstd, lz4, brotli} x batching {off; size 1,2,3,5 x interval 1h (never elapses) / 0 (always elapsed)} x message count 0..=2*size+1 x payload {0, 24 B, 100 KB, mixed (one 100 KB item between 24 B items)} in thorough; quick: every batching config x every message count with codec/compression rotating over all 18 pairs, plus mixed payload sizes under every batching config, plus every pair x {unbatched, size 2} x three payload sizes. Plus bulk cells (3000 items of 2 KiB pushed with send_all while the subscriber stays idle for 1.5 s, so the transport's back-pressure reaches the publisher; unbatched and batched) and duplicate cells (Publisher::duplicate() taken while 1..size items of a batch are pending; the duplicate sends two items and finishes before the original continues; every item of either exactly once, each publisher's in order). Each cell: real Subscriber (attached via a warm-up barrier), real Publisher sends n items then finish(); oracle: the subscriber yields exactly the sent items, equal, in order, once, nothing else. non-trivial = at least one message",
+        "every cell of codec {String, Bytes, Bincode struct} x compression {none, gzip, zlib, zstd, lz4, brotli} x batching {off; size 1,2,3,5 x interval 1h (never elapses) / 0 (always elapsed)} x message count 0..=2*size+1 x payload {0, 24 B, 100 KB, mixed (one 100 KB item between 24 B items)} in thorough; quick: every batching config x every message count with codec/compression rotating over all 18 pairs, plus mixed payload sizes under every batching config, plus every pair x {unbatched, size 2} x three payload sizes. Plus bulk cells (3000 items of 2 KiB pushed with send_all while the subscriber stays idle for 1.5 s, so the transport's back-pressure reaches the publisher; unbatched and batched) and duplicate cells (Publisher::duplicate() taken while 1..size items of a batch are pending; the duplicate sends two items and finishes before the original continues; every item of either exactly once, each publisher's in order). Plus drop-after-finish cells (500 items of 8 KiB through send_all on a connection of the publisher's own, which is dropped the moment finish() has returned) refused-item cells (unbatched: an item over the frame limit is refused between valid items, which must all arrive) and oversized-batch cells (valid 300 KB items whose batch as a whole exceeds the frame limit). Each cell: real Subscriber (attached via a warm-up barrier), real Publisher sends n items then finish(); oracle: the subscriber yields exactly the sent items, equal, in order, once, nothing else. non-trivial = at least one message",
         "each cell runs against one shared in-process server on a unique topic with its own client connection",
         json!({}),
         replaying,
